@@ -2,7 +2,6 @@ package props
 
 import (
 	"fmt"
-	"go/ast"
 	"sort"
 	"strings"
 
@@ -51,7 +50,7 @@ func C05(p *core.Program, r *core.Report) {
 	r.Add("S1", "element kinds with an HTML rendering", "", nHTML >= 6, fmt.Sprintf("%d serialising returns in %d GenerateOutput implementations", nHTML, len(outputFuncs(p))))
 	// Tag names only come from CanBeNested tags (converter emits tags under that predicate: C07)
 	// Document.GenerateOutput concatenates element outputs only
-	if dg := mustFunc(p, r, "S1", "(*"+webdocPkg+".Document).GenerateOutput"); dg != nil {
+	if dg := mustInl(p, r, "S1", "(*"+webdocPkg+".Document).GenerateOutput"); dg != nil {
 		c := core.NewCanon(p)
 		okAll := true
 		var wrote []string
@@ -80,27 +79,45 @@ func C05(p *core.Program, r *core.Report) {
 		r.Add("S2", "allow-list contains no event handler attribute", "", len(keys) > 150 && len(bad) == 0, fmt.Sprintf("%d allowed attributes; on*: %v", len(keys), bad))
 		r.Stats["allowed_attributes"] = len(keys)
 	}
-	if fd, pk := p.FuncDecl("internal/domutil", "", "StripAttributes"); fd == nil {
-		r.Undecided("S2", "anchor domutil.StripAttributes", "not found")
-	} else {
-		dropped := map[string]bool{}
-		for _, sw := range core.StringSwitches(pk, fd.Body, nil) {
-			for _, cl := range sw.Clauses {
-				// a clause whose body is `continue`
-				if len(cl.Body) == 1 {
-					if br, ok := cl.Body[0].(*ast.BranchStmt); ok && br.Tok.String() == "continue" {
-						for _, l := range cl.Labels {
-							dropped[l] = true
+	if sa := mustInl(p, r, "S2", stripKey); sa != nil {
+		// the per-attribute decision: one iteration of the loop that tests the attribute key
+		found := false
+		for _, h := range loopHeaders(sa) {
+			paths, atoms, _ := core.EnumerateDecisions(p, sa, core.DecisionOpts{IterateAt: h, Outcome: noOutcome,
+				Event: func(in ssa.Instruction, c *core.Canon) (string, bool) {
+					if call, ok := in.(*ssa.Call); ok {
+						if b, ok := call.Call.Value.(*ssa.Builtin); ok && b.Name() == "append" {
+							return "keep " + c.Of(call.Call.Args[1]), true
 						}
 					}
+					return "", false
+				}})
+			subject := ""
+			for a := range atoms {
+				if strings.HasSuffix(a, `.Key == "id"`) {
+					subject = strings.TrimSuffix(a, ` == "id"`)
 				}
 			}
+			if subject == "" {
+				continue
+			}
+			found = true
+			for _, k := range []string{"id", "class", "style"} {
+				n, kept := 0, 0
+				for _, pa := range consistentWith(paths, subject, k) {
+					n++
+					if len(pathEvents(pa)) > 0 {
+						kept++
+					}
+				}
+				r.Add("S2", "StripAttributes always drops "+k, p.Pos(sa.Pos()), n > 0 && kept == 0, fmt.Sprintf("%d decision paths of the attribute loop for key %q, %d of them keep the attribute", n, k, kept))
+			}
 		}
-		for _, k := range []string{"id", "class", "style"} {
-			r.Add("S2", "StripAttributes always drops "+k, p.Pos(fd.Pos()), dropped[k], "explicit drop list")
+		if !found {
+			r.Undecided("S2", "StripAttributes: attribute loop", "no loop of StripAttributes tests the attribute key against \"id\"")
 		}
 	}
-	if sa := mustFunc(p, r, "S2", stripKey); sa != nil {
+	if sa := mustInl(p, r, "S2", stripKey); sa != nil {
 		c := core.NewCanon(p)
 		// the element list is GetElementsByTagName(node,"*") plus the node itself
 		all, self, allowTest := false, false, false
@@ -143,8 +160,8 @@ func C05(p *core.Program, r *core.Report) {
 	checkOutputNodesGate(p, r, "S3")
 	if tbl := converterSwitch(p, r, "S3"); tbl != nil {
 		for _, tag := range []string{"script", "style"} {
-			cl := tbl.ByLabel[tag]
-			r.Add("S3", "converter drops <"+tag+">", tbl.Pos, cl != nil && cl.AlwaysReturnsFalse && !cl.Calls["StartNode"], "")
+			cl := tbl.For(tag)
+			r.Add("S3", "converter drops <"+tag+">", tbl.Pos, cl.Paths > 0 && cl.AlwaysReturnsFalse && !cl.Calls["StartNode"], "")
 		}
 	}
 	checkWholesaleCopies(p, r, "S3")
@@ -160,7 +177,7 @@ func shortVal(s string) string {
 // checkOutputNodesGate: the visitor of GetOutputNodes admits an element only if it is the walk
 // root or (not script/style and probably visible).
 func checkOutputNodesGate(p *core.Program, r *core.Report, rule string) {
-	fn := mustFunc(p, r, rule, domutilPkg+".GetOutputNodes$1")
+	fn := mustInl(p, r, rule, domutilPkg+".GetOutputNodes$1")
 	if fn == nil {
 		return
 	}
@@ -207,8 +224,9 @@ func checkOutputNodesGate(p *core.Program, r *core.Report, rule string) {
 // checkWholesaleCopies: deep copies / moves of source nodes inside output code must be in the
 // reviewed table (they bypass the per-node gate).
 func checkWholesaleCopies(p *core.Program, r *core.Report, rule string) {
+	// reviewed by the expression that is copied (the function it sits in may be renamed or split)
 	reviewed := map[string]string{
-		"(*internal/webdoc.Image).cloneAndProcessNode": "deep clone of an img/picture element; the extractor removed everything but img/source from pictures (processPicture), an img has no children",
+		"webdoc.Image: $0.Element": "deep clone of an img/picture element; the extractor removed everything but img/source from pictures (processPicture), an img has no children",
 	}
 	c := core.NewCanon(p)
 	n := 0
@@ -223,9 +241,15 @@ func checkWholesaleCopies(p *core.Program, r *core.Report, rule string) {
 				continue
 			}
 			n++
-			key := core.ShortKey(fn)
+			key := "func " + fn.Name()
+			if recv := fn.Signature.Recv(); recv != nil {
+				if nt := core.NamedOf(recv.Type()); nt != nil {
+					key = "webdoc." + nt.Obj().Name()
+				}
+			}
+			key += ": " + c.Of(call.Common().Args[0])
 			reason, ok := reviewed[key]
-			r.Add(rule, "deep copy of source nodes in "+key, p.Pos(call.Pos()), ok, "dom.Clone("+c.Of(call.Common().Args[0])+", true) bypasses the visibility/script gate; reviewed: "+reason)
+			r.Add(rule, "deep copy of source nodes: "+key, p.Pos(call.Pos()), ok, "dom.Clone("+c.Of(call.Common().Args[0])+", true) in "+core.ShortKey(fn)+" bypasses the visibility/script gate; reviewed: "+reason)
 		}
 	}
 	r.Stats["deep_copies_in_output_code"] = n
